@@ -74,7 +74,7 @@ def _eval(fname, zx, zy, prec):
             # |e^x| is far outside every format: only the signs of cos y / sin y matter
             c, sn = mpmath.cos(z.imag), mpmath.sin(z.imag)
             if float(zx) > 0:
-                big = mpmath.mpf(2) ** (10 ** 6)
+                big = mpmath.inf
                 return (big if c > 0 else -big) if c != 0 else mpmath.mpf(0), (big if sn > 0 else -big) if sn != 0 else mpmath.mpf(0)
             return mpmath.mpf(0), mpmath.mpf(0)
         if fname == "log2":
